@@ -486,7 +486,7 @@ def check_ack(ctx):
         ok_true = [o for o in oks if _agg_const_true(body, o)]
         if ok_true:
             # Ok(true) on the out-of-space arm only after flush_pending_deletions and a changed released_sectors counter
-            fpd = ctx.sites(body, R.call("write_buffer::flush_pending_deletions"), inst, floor=2)
+            fpd = ctx.sites(body, R.call_or_thin_helper("write_buffer::flush_pending_deletions"), inst, floor=2)
             R.dom(ctx, inst, body, fpd, ok_true, "Ok(true) retry arm only after retirements were flushed", a_desc="flush_pending_deletions")
             def rel_changed(e):
                 return e.k == "bin" and e.extra == "Eq" and e.has_field("RetirementQueue", "released_sectors")
